@@ -287,8 +287,9 @@ def check_property(pid, tier="quick", seed=0, out=sys.stdout):
         "wall_s": round(time.time() - t_start, 3),
         "violations": len(violations),
     }
-    os.makedirs(os.path.join(VERIF, "evidence"), exist_ok=True)
-    json.dump(ev, open(os.path.join(VERIF, "evidence", f"{pid}.json"), "w"), indent=1)
+    evdir = os.environ.get("PYVC_EVIDENCE_DIR") or os.path.join(VERIF, "evidence")
+    os.makedirs(evdir, exist_ok=True)
+    json.dump(ev, open(os.path.join(evdir, f"{pid}.json"), "w"), indent=1)
     # ---- output ----
     print(f"[{pid}] functions={len(results)} obligations={n_obl} discharged={n_dis} undecided={len(undecided)} "
           f"violations={len(violations)} known={len(known_hits)} gen={t_gen:.1f}s wall={time.time() - t_start:.1f}s", file=out)
